@@ -66,7 +66,10 @@ class Contract:
                  assumed=None, after_loop=None, hints=None, rt_only=None, ghost_vars=None, ghost_after=None,
                  exit_hints=None, vec_counts=None, after_assign=None, abstract_mul=False, entry_hints=None,
                  unroll=None, fields=None, fixed=None, fragment=None, call_hints=None, focus=None, may_raise=None,
-                 needed_by=None, opaque_calls=None, local_types=None, rt_harness=None, opaque_glue=False):
+                 needed_by=None, opaque_calls=None, local_types=None, rt_harness=None, opaque_glue=False,
+                 int_witness=None):
+        # int_witness: {target source: expr} the integer a float stored into an int array equals (ghost witness)
+        self.int_witness = dict(int_witness or {})
         # opaque_glue: attribute reads / subscripts of unmodelled objects and comprehensions the engine cannot model
         # evaluate to unmodelled objects (their possible exceptions are NOT analysed: listed as an assumption)
         self.opaque_glue = opaque_glue
